@@ -311,9 +311,39 @@ pub fn run(ctx: &mut Ctx) {
         }
         seen_total += seen.len() as u64;
     }
+    // Phase 3: long runs.  Phases 1/2 bound the *depth*; a defect that needs many repetitions on one Response (a table that
+    // only grows, an 8-bit index that wraps) is out of their reach, and the implementation state of such a defect is never
+    // merged by the fingerprint (it differs after every repetition).  So: every cycle w of 1..=cycle_len operations, repeated
+    // k = 1..=reps times on one Response; (200, GET) is checked after every repetition, all statuses / methods after the last.
+    let (cycle_len, reps) = if ctx.quick() { (2usize, 300usize) } else { (3, 300) };
+    let mut cycles: Vec<Vec<Op>> = alpha.iter().map(|o| vec![*o]).collect();
+    let mut layer = cycles.clone();
+    for _ in 1..cycle_len {
+        let mut next = vec![];
+        for w in &layer { for op in &alpha { let mut n = w.clone(); n.push(*op); next.push(n); } }
+        cycles.extend(next.iter().cloned());
+        layer = next;
+    }
+    let mut cycles_run = 0u64;
+    for w in &cycles {
+        if !ctx.mine() { continue }
+        if ctx.out_of_time() { break }
+        // a cycle that never removes or replaces anything cannot grow a table: one header / cookie more per repetition is
+        // a different (legitimate) long response; it is run too, the reference model handles it
+        let mut h: Vec<Op> = Vec::with_capacity(w.len() * reps);
+        for k in 1..=reps {
+            h.extend_from_slice(w);
+            if k == reps { for s in STATUSES { for m in METHODS { check_case(ctx, &router, &h, s, m); } } }
+            else { check_case(ctx, &router, &h, 200, "GET"); }
+        }
+        ctx.states += 1;
+        cycles_run += 1;
+    }
+    ctx.extra.insert("long_run_cycles".into(), json!(cycles_run));
     ctx.extra.insert("sum_distinct_impl_states".into(), json!(seen_total));
     ctx.extra.insert("rule".into(), json!("case = (history of public Response operations, status, request method); phase 1 runs every history up to the plain depth; phase 2 continues breadth-first to the dedup depth, merging two histories only when the fingerprint of the implementation's complete header state (slot table, value vector incl. dead entries, size, custom map, cookie list) and content are identical; non-trivial = non-empty history; collision = a header was removed (or content dropped) and touched again, or content dropped - the histories in which stale slots / under-counted sizes can arise"));
-    ctx.extra.insert("bounds".into(), json!({"operations": alpha.iter().map(op_name).collect::<Vec<_>>(), "statuses": STATUSES, "methods": METHODS, "plain_depth": plain_depth, "dedup_depth": dedup_depth}));
+    ctx.extra.insert("bounds".into(), json!({"operations": alpha.iter().map(op_name).collect::<Vec<_>>(), "statuses": STATUSES, "methods": METHODS, "plain_depth": plain_depth, "dedup_depth": dedup_depth,
+        "long_runs": format!("every cycle of 1..={cycle_len} operations repeated 1..={reps} times on one Response, checked after every repetition")}));
     ctx.traces_validated = ctx.transitions;
     ctx.sample(|| json!({"history": ["Set(Server, \"x\")", "Remove(Server)", "Set(Server, \"yy\")"], "status": 200, "method": "GET"}));
 }
